@@ -145,6 +145,9 @@ func (g *Generator) Generate(dict *dictionary.Dictionary) ([]byte, error) {
 		ea.Values = append(ea.Values, value)
 	}
 	dictionary.SortValues(values)
+	for _, ea := range externalAttributes {
+		dictionary.SortValues(ea.Values)
+	}
 
 	vendors := make([]*dictionary.Vendor, 0, len(dict.Vendors))
 	for _, vendor := range dict.Vendors {
